@@ -60,7 +60,10 @@ K2(q) == q.k * 2                       \* constant expression  K2: K * 2
 Inner(q) == <<F("a", NatT(q.n1), 0), F("b", NatT(q.n2), q.sh), F("c", NatT("char"), 3)>>
 Mid(q)   == <<F("x", StrT("INNER"), 0), F("y", StrT("INNER"), 2), F("z", NatT(q.n3), q.k)>>       \* struct array, literal-by-constant length
 MsgA(q)  == <<F("c", NatT("char"), 0), F("d", NatT(q.n4), 0),                      \* d is declared through alias A2 -> A1 -> n4
-              F("e", NatT(q.n1), K2(q)), F("o", StrT("MID"), 0), F("s", NatT("char"), 16), F("u", NatT(q.n2), 3)>>
+              F("e", NatT(q.n1), K2(q)), F("o", StrT("MID"), 0), F("s", NatT("char"), 16), F("u", NatT(q.n2), 3),
+              \* array lengths that are arithmetic: K / 2 * 4 (true division, = 2K; C integer division would give another number)
+              \* and a constant whose value is a float with an integral value (DHALF: K2 / 2 = K)
+              F("v", NatT("int8"), K2(q)), F("w", NatT("int8"), q.k)>>
 DefsOf(q) == [INNER |-> Inner(q), MID |-> Mid(q), MSG_A |-> MsgA(q), MSG_B |-> MsgA(q)]     \* MSG_B: field-list reuse of MSG_A
 StructNames == {"INNER", "MID"}
 (* one signal and one constant whose names are longer than the 48-column padding the C back end uses for its #define lines *)
